@@ -123,7 +123,12 @@ func sameComponents(a, b ref.Ref) bool {
 	return a.Scheme == b.Scheme && a.Registry == b.Registry && a.Repository == b.Repository && a.Tag == b.Tag && a.Digest == b.Digest && a.Path == b.Path
 }
 
-func runCase(c Case, res *lib.Result) string {
+func runCase(c Case, res *lib.Result) (ret string) {
+	defer res.Recover(c)
+	return runCaseRaw(c, res)
+}
+
+func runCaseRaw(c Case, res *lib.Result) string {
 	r0, err := ref.New(c.Str)
 	switch c.Kind {
 	case "parse":
